@@ -779,6 +779,8 @@ void body()
   vf::set_entry(e);
   runner r;
   std::uint64_t total = vf::tier<std::uint64_t>(12000, 1000000);
+  if (vf::has_extra("--small")) // the memcheck pass
+    total = 16000;
   std::uint64_t per = total / vf::opts().nparts + 1;
   for (std::uint64_t i = 0; i < per; ++i)
   {
